@@ -198,6 +198,9 @@ def percentile(a, q, method="linear", internal_method="default", **kwargs):
         if np.issubdtype(dtype, np.integer) and method in ("linear", "midpoint"):
             # only the interpolating methods leave the input dtype
             dtype = (array_safe([], dtype=dtype, like=meta_from_array(a)) / 0.5).dtype
+        elif np.issubdtype(dtype, np.floating) and method in ("linear", "midpoint"):
+            # interpolation is carried out in (at least) double precision
+            dtype = np.result_type(dtype, np.float64)
         meta = meta_from_array(a, dtype=dtype)
 
         if internal_method not in allowed_internal_methods:
